@@ -218,6 +218,10 @@ type ReplayFile struct {
 	Crash    bool `json:"crash,omitempty"`
 	Generate bool `json:"generate,omitempty"`
 	OrigTape int  `json:"original_tape_len"`
+	// History: the violation did not reproduce from its own tape in a fresh process, because the code under
+	// test keeps state across calls (a process-wide cache, a pool); the replay first re-executes these earlier
+	// runs of the same worker, each regenerated from (seed, run), and then the recorded tape.
+	History []uint64 `json:"history_runs,omitempty"`
 }
 
 // Known findings ------------------------------------------------------------------------
